@@ -227,6 +227,37 @@ class History:
         self.pruned = after.get('tombstones', [])
         return rc, out, err
 
+    def prelude_epic_chain(self):
+        """Scripted start: epic E2 waits for epic E1; E1 has an open and a finished child; tasks of E2 with
+        their own finished / removed / open / no dependencies - the shapes on which inherited blocking and a
+        task's own dependencies interact."""
+        rng = self.rng
+
+        def new(is_epic, **f):
+            r = Req(k="new", epic=is_epic, mode="json", fields=dict(f), agent=None)
+            rc, out, _ = self.do(r)
+            return json.loads(out)['id'] if rc == 0 else None
+        e1, e2 = new(True, title='chain E1'), new(True, title='chain E2')
+        a = new(False, title='E1 open child', epic=e1)
+        b = new(False, title='E1 finished child', epic=e1, state=rng.choice(['done', 'canceled']))
+        t1 = new(False, title='E2 after finished', epic=e2)
+        t2 = new(False, title='E2 edge removed', epic=e2)
+        t3 = new(False, title='E2 plain', epic=e2)
+        free = new(False, title='loose finished', state='done')
+        if None in (e1, e2, a, b, t1, t2, t3, free):
+            return
+        self.do(Req(k='seq', ids=[e1, e2]))
+        self.do(Req(k='seq', ids=[b, t1]))
+        self.do(Req(k='seq', ids=[free, t2]))
+        self.do(Req(k='seqrm', a=free, b=t2))
+        if rng.random() < 0.5:
+            self.do(Req(k='seq', ids=[free, t1]))
+        self.do(Req(k='claim', id=None, in_epic=e2, agent='zed'))
+        self.do(Req(k='claim', id=None, in_epic=None, agent='zed'))
+        if rng.random() < 0.5:
+            self.do(Req(k='set', epic=False, id=a, mode='json', fields={'state': rng.choice(['done', 'canceled'])}, agent=None))
+            self.do(Req(k='claim', id=None, in_epic=e2, agent='bob@host'))
+
     def coq_case(self):
         return '(Case %s %s)' % (cq_events(self.init_events), cq_list(self.steps))
 
@@ -333,6 +364,16 @@ class History:
 
     def gen_plan(self):
         rng = self.rng
+        if rng.random() < 0.12:
+            # titles built from one another with a separator: any "a<sep>b" keyed bookkeeping of (task, after)
+            # pairs or of titles is ambiguous on these  (m , v1<sep>v2)  vs  (m<sep>v1 , v2)
+            sep = rng.choice(['->', '|', ':', ',', ' ', '/', '=>', '\t', '#', '\u2192'])
+            v1, v2, m = rng.sample(['v1', 'v2', 'migrate', 'db', 'x', 'Deploy'], 3)
+            tasks = [{'title': v2}, {'title': v1 + sep + v2}, {'title': m, 'after': [v1 + sep + v2]},
+                     {'title': m + sep + v1, 'after': [v2]}]
+            if rng.random() < 0.5:
+                tasks.append({'title': m + sep + v1 + sep + v2, 'after': [m, m + sep + v1]})
+            return {'title': 'separator plan ' + repr(sep), 'tasks': tasks}
         n = rng.choice([1, 2, 3, 3, 4, 6])
         titles = []
         for i in range(n):
